@@ -15,6 +15,7 @@ pub use verif_rt as rt;
 pub mod reply;
 pub mod remote;
 pub mod mt;
+pub mod chain;
 pub use reply::{reply_main_with, ReplyVt};
 
 // ------------------------------------------------------------------------------------------------
@@ -84,6 +85,7 @@ pub type Deps = OwnedDeps<MockStorage, MockApi, MockQuerier>;
 pub mod rec {
     use super::*;
     pub use crate::reply::{build_with, ctx_reply, ctx_reply_legacy, reply_proj, inst_data, reply_handler, result_text, Recv};
+    pub use crate::chain::chain_built;
     use sylvia::ctx::{ExecCtx, InstantiateCtx, MigrateCtx, QueryCtx, SudoCtx};
     use sylvia::cw_std::{QuerierWrapper, Storage};
 
